@@ -155,7 +155,8 @@ class X12Base(object):
             self.lx_count = 0
         elif self.check_837_lx and seg_id == 'LX':
             self.lx_count += 1
-            if seg_data.get_value('LX01') != '{:d}'.format(self.lx_count):
+            # a number like the other counters: 01 is 1
+            if self._int(seg_data.get_value('LX01')) != self.lx_count:
                 err_str = 'Your 2400/LX01 Service Line Number {} does not match my count of {:d}'.format(\
                     seg_data.get_value('LX01'), self.lx_count)
                 self._seg_error('LX', err_str)
